@@ -350,35 +350,35 @@ CTORS = [
 
 
 def constructors(chk, prog, cfg):
-    chk.rule("R17.2c", "plain constructors are field-wise identities: field k of the result flows from parameter k (through "
-             "Into / into_iter().collect() only), in declaration order")
+    chk.rule("R17.2c", "plain constructors are field-wise identities, decided on symbolic runs: field k of the result is parameter k (converted by Into / "
+             "collected from its iterator at most), in declaration order, and nothing else")
+    S = symrun.Sym
     for fn, adt in CTORS:
         cands = [p for p in prog.fns if mir.strip_generics(p) == fn]
         if len(cands) != 1:
             chk.anchor_missing(fn, "found %d" % len(cands))
             continue
         b = prog.body(cands[0])
-        rt = b.return_term()
-        if not is_adt_agg(rt, adt):
-            chk.unrecognised("R17.2c", fn.split("scale_info::")[-1], b.where(), "constructor does not end in an aggregate: %s" % path_str(rt)[:120], cfg)
-            continue
         fields = [f["name"] for f in prog.adts[adt]["variants"][0]["fields"]]
-        ok = True
-        detail = path_str(rt)[:200]
-        for k, fname in enumerate(fields):
-            v = agg_field(rt, fname)
-            t = v
-            while is_call(t, "into", nargs=1) or is_call(t, "collect", nargs=1) or is_call(t, "into_iter", nargs=1) or is_call(t, "from", nargs=1):
-                t = t[2][0]
-            if t != cr.arg(b, k + 1):
-                ok = False
-                detail = "field `%s` (position %d) is built from %s, expected parameter %d" % (fname, k, path_str(v)[:80], k + 1)
-                break
-            extra = [n for n in mir.call_names(v) if n.split("::")[-1] not in ("into", "collect", "into_iter", "from")]
-            if extra:
-                ok = False
-                detail = "field `%s` goes through %s" % (fname, extra)
-                break
+        args = [S("p%d" % (k + 1)) for k in range(b.arg_count)]
+        r = symrun.Run(prog)
+        try:
+            v = r.run(cands[0], args)
+        except absint.Unrecognised as e:
+            chk.unrecognised("R17.2c", fn.split("scale_info::")[-1], b.where(), "cannot interpret the constructor: %s" % e, cfg)
+            continue
+        ok = symrun.is_struct(v, adt) and not r.log
+        detail = "%s(p1..p%d) = %s" % (fn.split("::")[-1], len(args), symrun.show(v)[:200])
+        if ok:
+            data = [f for f in fields if not symrun.is_struct(symrun.field(v, f), "core::marker::PhantomData")]
+            for k, fname in enumerate(data):
+                g = symrun.field(v, fname)
+                want = args[k] if k < len(args) else None
+                if not (g == want or g == ("conv", want)):
+                    ok = False
+                    detail = "field `%s` (position %d) is %s, expected parameter %d" % (fname, k, symrun.show(g)[:80], k + 1)
+                    break
+            ok = ok and len(data) == len(args)
         chk.expect(ok, "R17.2c", fn.split("scale_info::")[-1], b.where(), detail, cfg)
 
 
